@@ -372,9 +372,16 @@ func runReader(tb ev.TB, c readerCase) (labels []string, nontrivial bool) {
 	}
 	var mu sync.Mutex
 	stalled := false
+	coordErrs := 0
 	cl.SetHook(func(cl *fakecluster.Cluster, r *fakecluster.Request) *fakecluster.Action {
 		mu.Lock()
 		s := stalled
+		if c.BrokerState == "coord-error" && r.ApiKey == 10 && coordErrs < 3 {
+			// the first FindCoordinator requests fail: the group is joined only after retries
+			coordErrs++
+			mu.Unlock()
+			return &fakecluster.Action{ErrorCode: 15, Tag: "coord-error"}
+		}
 		mu.Unlock()
 		if !s {
 			return nil
@@ -441,7 +448,7 @@ func runReader(tb ev.TB, c readerCase) (labels []string, nontrivial bool) {
 	}
 	joined := len(cl.GroupMembers("g")) > 0
 	mu.Lock()
-	stalled = c.BrokerState != "normal"
+	stalled = c.BrokerState != "normal" && c.BrokerState != "coord-error"
 	mu.Unlock()
 	if c.CloseDuring == "rebalance" && c.Group {
 		cl.ForceRebalance("g")
@@ -584,7 +591,7 @@ func runReader(tb ev.TB, c readerCase) (labels []string, nontrivial bool) {
 				continue
 			}
 			id, _ := lastJoin.RespBody["MemberID"].(string)
-			if id == "" || c.BrokerState != "normal" {
+			if id == "" || (c.BrokerState != "normal" && c.BrokerState != "coord-error") {
 				continue
 			}
 			at, ok := left[id]
@@ -656,7 +663,7 @@ func TestReaderClose(t *testing.T) {
 			FetchFirst:  rapid.IntRange(0, 5).Draw(t, "fetchFirst"),
 			Blocked:     rapid.SampledFrom([]string{"fetch", "fetch", "commit", "none"}).Draw(t, "blocked"),
 			Event:       rapid.SampledFrom([]string{"close", "close", "cancel"}).Draw(t, "event"),
-			BrokerState: rapid.SampledFrom([]string{"normal", "normal", "normal", "normal", "normal", "slow", "slow", "slow", "stall-fetch", "stall-heartbeat"}).Draw(t, "broker"),
+			BrokerState: rapid.SampledFrom([]string{"normal", "normal", "normal", "normal", "normal", "slow", "slow", "slow", "stall-fetch", "stall-heartbeat", "coord-error", "coord-error"}).Draw(t, "broker"),
 			CommitMs:    rapid.SampledFrom([]int{0, 0, 10}).Draw(t, "commitMs"),
 			DelayUs:     rapid.SampledFrom([]int{0, 100, 2000, 30000}).Draw(t, "delayUs"),
 		}
